@@ -348,6 +348,17 @@ def c05(res: Result):
                                  [{"op": "bfs", "n": 1, "lvl": 1, "size": -1}, {"op": "skiprem"}, {"op": "allseeds"}],
                                  [{"op": "exp", "n": 1}, {"op": "seeds", "n": 1}, {"op": "skipmin", "n": 2}, {"op": "skipmin", "n": 3}, {"op": "skiprem"}, {"op": "allseeds"}],
                                  [{"op": "min", "n": 1, "size": 3, "skip": True}, {"op": "skiprem"}, {"op": "allseeds"}]])
+    # the same through the fully symbolic fallback (forced by a candidate limit of 1): skip nodes prune their search space
+    # with what is known about other nodes there too
+    import twin as _twin
+    fb = [[{"op": "exp", "n": 1}, {"op": "skiprem"}, {"op": "allseeds", "fallback": True}],
+          [{"op": "exp", "n": 1}, {"op": "skipmin", "n": 3}, {"op": "skipmin", "n": 2}, {"op": "allseeds", "fallback": True}],
+          [{"op": "min", "n": 1, "size": -1, "skip": True}, {"op": "allseeds", "fallback": True}],
+          [{"op": "exp", "n": 1}, {"op": "skiprem"}] + [{"op": "seeds", "n": k, "fallback": True} for k in (6, 5, 4, 3, 2, 1, 7, 8, 9)] + [{"op": "allseeds", "fallback": True}],
+          [{"op": "bfs", "n": 1, "lvl": 1, "size": -1}, {"op": "skiprem"}, {"op": "allseeds", "fallback": True}]]
+    for t in gadget_tasks("gfb", fb) + feature_tasks("ffb", fb, kinds=["maa", "modules"], max_n=6):
+        t["cfg"] = dict(_twin.FORCE_FALLBACK)
+        tasks.append(t)
     invs = ["Inv_SeedsAll", "Inv_WF", "Inv_HANG"]
     res.cov["rule"] = ("Expansion stopped early (BFS/DFS/minimal-space/block with size, level and stack limits), remaining nodes skipped "
                        "(skip_remaining, skip_to_minimal, skip_ignored), seeds requested for all nodes in id order; TLC checks every attractor is "
@@ -453,7 +464,9 @@ def c12(res: Result):
     invs = ["Inv_SetsFresh", "Inv_CacheFresh", "Inv_HANG"]
     res.cov["rule"] = ("Attractor sets requested before/after seeds and candidates, after reclamation and pickling, on expanded and unexpanded "
                        "nodes; and seeds via the symbolic fallback (forced by a tiny candidate limit). TLC checks that set i is exactly the "
-                       "attractor containing seed i, over all variables, and that fallback seeds are exactly the node's own attractors. "
+                       "attractor containing seed i, over all variables, and that fallback seeds are exactly the node's own attractors. Twin runs "
+                       "(relation 'fallback'): one history with the default method and with every seed computed by the forced fallback, on "
+                       "expanded, unexpanded and skip nodes in several query orders: the same attractor sets node by node. "
                        "Non-trivial: distinct cases with a complex (non-singleton) attractor set or a fallback run.")
 
     def nt(tr):
@@ -461,6 +474,26 @@ def c12(res: Result):
             return True
         return any(len(s) > 1 for n in tr["events"][-1]["post"]["nodes"] for s in n["sets"]["v"])
     execute_and_validate(res, tasks, invs, "sets", nt)
+    # "the symbolic fallback yields the same attractors as the default method": twin runs of one history, node by node,
+    # also on skip nodes (whose search space depends on which other nodes are already known to be empty: query orders vary)
+    tw = []
+    pres = [[], [{"op": "exp", "n": 1}], [FULL_BFS],
+            [{"op": "exp", "n": 1}, {"op": "skipmin", "n": 2}, {"op": "skipmin", "n": 3}],
+            [{"op": "exp", "n": 1}, {"op": "skiprem"}],
+            [{"op": "bfs", "n": 1, "lvl": 1, "size": -1}, {"op": "skiprem"}],
+            [{"op": "min", "n": 1, "size": -1, "skip": True}],
+            [{"op": "exp", "n": 1}, {"op": "exp", "n": 2}, {"op": "skiprem"}]]
+    orders = [[1, 2, 3, 4, 5, 6, 7, 8], [8, 7, 6, 5, 4, 3, 2, 1], [2, 3, 1, 4, 5, 6, 7, 8], [3, 2, 4, 1, 5, 6]]
+    nets = [(k, tt) for k, tt in gen.gadget_networks().items() if len(tt) <= 6]
+    nets += [(f"r{i}", tt) for i, tt in enumerate(gen.network_pool(rng, N(q, 40, 300), [3, 4, 4, 5]))]
+    import features
+    nets += [(nm, tt) for nm, tt in features.feature_networks(["maa"], 6)][:N(q, 10, 60)]
+    for name, tt in nets:
+        for pi, pre in enumerate(pres):
+            if q and name.startswith("r") and pi not in (1, 3, 4):
+                continue
+            tw.append({"kind": "fallback", "tid": f"fb{name}_{pi}", "tt": tt, "pre": pre, "order": rng.choice(orders) if name.startswith("r") else orders[pi % len(orders)]})
+    run_twin(res, tw, ["Inv_ATTR"], ["Inv_WF", "Inv_CacheFresh", "Inv_SetsFresh"], "fallback", lambda t: t.get("fallback_runs", 0) >= 1)
 
 
 def c15(res: Result):
